@@ -8,7 +8,7 @@ wt="$1"; name="$2"
 scratch=/tmp/confirm-$name
 rm -rf "$scratch"; git -C /repo worktree prune
 git -C /repo worktree add -q "$scratch" HEAD || exit 2
-cleanup() { git -C /repo worktree remove --force "$scratch" 2>/dev/null; }
+cleanup() { cp "$scratch/ctest.log" /tmp/last-ctest-$name.log 2>/dev/null; git -C /repo worktree remove --force "$scratch" 2>/dev/null; }
 trap cleanup EXIT
 cp -r "$wt/OUT" "$scratch/OUT"
 cd "$scratch" || exit 2
@@ -19,7 +19,7 @@ git apply OUT/patch.diff || { echo "PATCH DOES NOT APPLY"; exit 1; }
 cmake -G Ninja -B _build -S . > cfg.log 2>&1 && cmake --build _build -j16 > bld.log 2>&1 || { echo "BUILD FAILED"; tail bld.log; exit 1; }
 ( bash OUT/demo/run_demo.sh "$scratch" > "$scratch/demo_patched.log" 2>&1 ); rc_patched=$?
 ctest --test-dir _build -j8 --timeout 900 > ctest.log 2>&1
-fails=$(grep -E "^\s*[0-9]+ - .*\((Failed|Timeout|SEGFAULT|Subprocess aborted)" ctest.log | grep -vE "client-queue-is-flushed-after-abort|default-devices|one-video-stream|sleep-while-inspecting" | wc -l)
+fails=$(grep -E "^\s*[0-9]+ - .*\(" ctest.log | grep -vE "client-queue-is-flushed-after-abort|default-devices|one-video-stream|sleep-while-inspecting" | wc -l)
 summary=$(grep -E "tests passed" ctest.log)
 echo "demo clean rc=$rc_clean  demo patched rc=$rc_patched  suite: $summary  (non-flaky failures: $fails)"
 if [ $rc_clean -eq 0 ] && [ $rc_patched -ne 0 ] && [ "$fails" -eq 0 ]; then
